@@ -1,12 +1,111 @@
 package main
 
 import (
+	"github.com/z7zmey/php-parser/pkg/ast"
 	"github.com/z7zmey/php-parser/pkg/token"
 	"github.com/z7zmey/php-parser/pkg/visitor/printer"
 )
 
 func init() {
 	Register("H_C15_Kind", H_C15_Kind)
+	Register("H_C15_Lexemes", H_C15_Lexemes)
+}
+
+func lowerASCII(b []byte) string {
+	r := make([]byte, len(b))
+	for i, c := range b {
+		if c >= 'A' && c <= 'Z' {
+			c += 'a' - 'A'
+		}
+		r[i] = c
+	}
+	return string(r)
+}
+
+// H_C15_Lexemes (native helper for the driver): which texts the parser of the current tree
+// stores in which token slot - "Kind.Slot=text" for every token slot and separator list of a
+// parsed program. This is the reference for "the construct's canonical lexeme": what the
+// printer substitutes for an absent token must be a text parsing puts into that very slot.
+func H_C15_Lexemes() {
+	in := []byte(ParamStr("src"))
+	major, minor := PickVersion()
+	a := ParseWith(in, major, minor, true)
+	Observe("nerr", len(a.Errs))
+	if IsNilVertex(a.Root) || len(a.Errs) != 0 {
+		return
+	}
+	seen := map[string]bool{}
+	out := ""
+	note := func(k int, slot string, t *token.Token) {
+		if t == nil || len(t.Value) == 0 || len(t.Value) > 16 {
+			return
+		}
+		e := KindNames[k] + "." + slot + "=" + lowerASCII(t.Value)
+		for i := 0; i < len(t.Value); i++ {
+			if t.Value[i] < 0x20 || t.Value[i] >= 0x7f {
+				return // not a lexeme of the language's punctuation or keywords
+			}
+		}
+		if !seen[e] {
+			seen[e] = true
+			out += e + "\x01"
+		}
+	}
+	Walk(a.Root, nil, func(n, _ ast.Vertex) {
+		k := KindOf(n)
+		for _, sl := range SlotsOf(n) {
+			switch sl.Kind {
+			case SToken:
+				note(k, sl.Name, sl.T)
+			case STokenList:
+				for _, t := range sl.TL {
+					note(k, sl.Name, t)
+				}
+			}
+		}
+	})
+	ObserveStr("lex", out)
+}
+
+// allowedLexemes parses the driver's "Slot=a\x02b\x01Slot2=c" parameter.
+func allowedLexemes() map[string][]string {
+	m := map[string][]string{}
+	p := ParamStr("lex")
+	cur := ""
+	flush := func() {
+		if cur == "" {
+			return
+		}
+		eq := -1
+		for i := 0; i < len(cur); i++ {
+			if cur[i] == '=' {
+				eq = i
+				break
+			}
+		}
+		if eq > 0 {
+			slot := cur[:eq]
+			w := ""
+			for i := eq + 1; i <= len(cur); i++ {
+				if i == len(cur) || cur[i] == 2 {
+					m[slot] = append(m[slot], w)
+					w = ""
+				} else {
+					w += string(cur[i])
+				}
+			}
+		}
+		cur = ""
+	}
+	for i := 0; i < len(p); i++ {
+		if p[i] == 1 {
+			flush()
+		} else {
+			cur += string(p[i])
+		}
+	}
+	flush()
+	return m
 }
 
 func isMarker(b []byte) bool {
@@ -32,6 +131,8 @@ func H_C15_Kind() {
 	name := KindNames[k]
 	var want []string
 	absent := 0
+	var absentTok []string  // names of the absent single-token slots
+	var absentSeps []string // names of separator lists with a missing separator
 	for i := 0; i < len(s.Slots); i++ {
 		sl := s.Slots[i]
 		switch sl.Kind {
@@ -50,6 +151,9 @@ func H_C15_Kind() {
 					want = tokMarkers(want, seps[j])
 				} else if j < len(sl.VL)-1 {
 					absent++
+					if i+1 < len(s.Slots) && s.Slots[i+1].Kind == STokenList {
+						absentSeps = append(absentSeps, s.Slots[i+1].Name)
+					}
 				}
 			}
 		case SToken:
@@ -57,6 +161,7 @@ func H_C15_Kind() {
 				want = tokMarkers(want, sl.T)
 			} else {
 				absent++
+				absentTok = append(absentTok, sl.Name)
 			}
 		}
 	}
@@ -64,6 +169,7 @@ func H_C15_Kind() {
 	s.N.Accept(printer.NewPrinter(w).WithState(printer.PrinterStatePHP))
 	var got []string
 	consts := 0
+	var lexemes []string // substituted texts other than node values
 	for _, c := range w.list {
 		if isMarker(c) {
 			got = append(got, string(c))
@@ -71,7 +177,45 @@ func H_C15_Kind() {
 			// the separating space the printer may add between two word characters
 		} else {
 			consts++
+			if !(len(c) >= 2 && c[0] == '(' && c[1] == 'v') {
+				lexemes = append(lexemes, lowerASCII(c))
+			}
 		}
+	}
+	// canonical lexemes: what stands in for an absent token is a text the parser stores in that
+	// slot of that construct (learned from parsed programs on this run), never another one.
+	// Decidable per slot when exactly one token slot (or the separators of one list) is absent.
+	allowed := allowedLexemes()
+	var slotSet []string
+	slotName := ""
+	if len(absentTok) == 1 && len(absentSeps) == 0 {
+		slotName = absentTok[0]
+	} else if len(absentTok) == 0 && len(absentSeps) > 0 {
+		same := true
+		for _, a := range absentSeps {
+			same = same && a == absentSeps[0]
+		}
+		if same {
+			slotName = absentSeps[0]
+		}
+	}
+	if slotName != "" {
+		slotSet = allowed[slotName]
+		if len(slotSet) == 0 {
+			Cover("lexeme-unconstrained:" + name + "." + slotName)
+		}
+		for _, lx := range lexemes {
+			ok := len(slotSet) == 0
+			for _, a := range slotSet {
+				if a == lx {
+					ok = true
+				}
+			}
+			if !ok {
+				Fail("C15:substituted-lexeme-is-not-one-of-this-slot", name+"."+slotName+" prints \""+lx+"\"")
+			}
+		}
+		Cover("lexeme-checked")
 	}
 	Observe("chunks", len(w.list))
 	// each expected marker exactly once
